@@ -274,6 +274,30 @@ def rules(ck, P):
         has_true = any(v in ("true", "1", "yes") for v in lits)
         ck.check(has_true and has_false and bool(errs), "R-REQ", b["q"] + "|mistyped", "boolean parameters accept spellings of true and of false (%s) and reject everything else with an error" % lits,
                  "a boolean parameter with a value that is neither a spelling of true nor of false (accepted literals: %s) is not rejected: `fast=maybe` silently means false" % lits, ir.loc(b))
+        # the documented spellings, case-insensitively: the value is decided by ONE match over the lower-cased (trimmed) text whose literal
+        # arms are exactly these; a case-sensitive pre-test (str::parse::<bool>) in front of it makes `True` / `FALSE` invalid
+        BOOL_TRUE, BOOL_FALSE = {"1", "true", "yes", "ok"}, {"0", "false", "no"}
+        ms = [m_ for m_ in ir.walk_nodes(b["body"]) if m_.get("k") == "match" and any(p_.get("k") == "expr" and p_["e"].get("lk") == "str"
+                                                                                  for a_ in m_["arms"] for p_ in (a_["pat"].get("ps") or [a_["pat"]]))]
+        okb, why = False, "%d matches over string literals" % len(ms)
+        if len(ms) == 1:
+            m_ = ms[0]
+            tr, fa = set(), set()
+            for a_ in m_["arms"]:
+                vals = {p_["e"]["v"] for p_ in (a_["pat"].get("ps") or [a_["pat"]]) if p_.get("k") == "expr" and p_["e"].get("lk") == "str"}
+                if not vals:
+                    continue
+                res = [z.get("v") for z in ir.walk_nodes(a_["body"]) if z.get("k") == "lit" and z.get("lk") == "bool"]
+                if res == [True]:
+                    tr |= vals
+                elif res == [False]:
+                    fa |= vals
+            chain = [z["name"] for z in ir.walk_nodes(m_["e"]) if z.get("k") == "mcall"]
+            pre = [z for z in ir.walk_nodes(b["body"]) if z.get("k") == "mcall" and (z.get("q") or "") == "str::parse"]
+            okb = tr == BOOL_TRUE and fa == BOOL_FALSE and "to_lowercase" in chain + ["to_ascii_lowercase"] * ("to_ascii_lowercase" in chain) and not pre
+            why = "true spellings %s, false spellings %s, scrutinee adaptors %s, case-sensitive pre-tests %d" % (sorted(tr), sorted(fa), chain, len(pre))
+        ck.check(okb, "R-REQ", b["q"] + "|bool-spellings", "a boolean is one of 1/true/yes/ok or 0/false/no, compared case-insensitively (one match over the lower-cased text)",
+                 "the accepted boolean spellings are not exactly {1,true,yes,ok} / {0,false,no} compared case-insensitively (%s): a documented spelling such as `True` is rejected, or another text is accepted" % why, ir.loc(b))
     gp = [x for x in P.bodies if x["q"].endswith("vpl::vpl_node::VPLNode::get_property")]
     if ck.anchor("R-REQ", "VPLNode::get_property", gp, 1):
         b = gp[0]
